@@ -1,3 +1,51 @@
+use vcore::{Fail, Report};
+use watch::script::Script;
+use watch::session::{Outcome, Session, Stop, compare};
+
+fn run_script(script: &Script, root: &std::path::Path, verbose: bool) -> Result<(), Stop> {
+    let files: Vec<(&str, String)> = script.initial.iter().map(|(p, t)| (p.as_str(), t.clone())).collect();
+    let mut s = Session::start(root, &files)?;
+    s.verbose = verbose;
+    let mut result = Ok(());
+    for (i, w) in script.windows.iter().enumerate() {
+        if verbose {
+            println!("window {i}: {:?}", w.iter().map(watch::script::op_to_json).map(|j| j.to_string()).collect::<Vec<_>>());
+        }
+        match s.window(w) {
+            Ok(rep) => {
+                if verbose {
+                    println!("      changes={} watch={} fresh={}", rep.changes, rep.watch.kind(), rep.fresh.kind());
+                    if let Outcome::Diagnostics(d) = &rep.fresh { for x in d { println!("      fresh diag: {}", x.lines().next().unwrap_or("")); } }
+                }
+                if let Some((kind, msg)) = compare(&rep.watch, &rep.fresh) {
+                    result = Err(Stop::Fail(Fail::new(format!("diverge:{kind}"), format!("after window {i}: {kind}\n{msg}"))));
+                    break;
+                }
+            }
+            Err(stop) => {
+                result = Err(stop);
+                break;
+            }
+        }
+    }
+    s.stop();
+    result
+}
+
 fn main() {
-    vcore::inconclusive("watch: not built yet");
+    let args = vcore::parse_args();
+    let report = Report::new(&args, "exploration", "tbd");
+    let verbose = std::env::var("VERIF_VERBOSE").is_ok();
+    if let Some(path) = &args.replay {
+        let v = vcore::read_replay(path);
+        let script = Script::from_json(&v["input"]).unwrap_or_else(|e| vcore::inconclusive(&format!("bad replay: {e}")));
+        let root = vcore::scratch_base().join("w0/p");
+        match run_script(&script, &root, verbose) {
+            Ok(()) => println!("replay: held"),
+            Err(Stop::Fail(f)) => { report.violation("replay", &f, v["input"].clone()); }
+            Err(Stop::Inconclusive(w)) => println!("replay: inconclusive {w}"),
+        }
+        report.case(Some("replay"), &["replay"]);
+        report.finish();
+    }
 }
